@@ -619,11 +619,6 @@ def check_seg(case, acc, record=True):
     def rounding():
         S2 = []
         for c in _split_with_components(S):
-            if is_noon(c):
-                # RoundingPen.qCurveTo unpacks every argument as (x, y): the documented
-                # qCurveTo(*offCurves, None) form raises TypeError (reported finding)
-                acc.exclude("RoundingPen:contour-without-on-curve-point(qCurveTo ... None)")
-                continue
             S2.extend(c)
         r = RecordingPen()
         gp.replay_ops(S2, roundingPen.RoundingPen(r))
@@ -633,9 +628,9 @@ def check_seg(case, acc, record=True):
                 t = args[1]
                 exp_ops.append((op, (args[0], (t[0], t[1], t[2], t[3], ot_round(t[4]), ot_round(t[5])))))
             else:
-                exp_ops.append((op, tuple((ot_round(p[0]), ot_round(p[1])) for p in args)))
+                exp_ops.append((op, tuple((ot_round(p[0]), ot_round(p[1])) if p is not None else None for p in args)))
         for op, args in r.value:
-            if op != "addComponent" and not all(type(p[0]) is int and type(p[1]) is int for p in args):
+            if op != "addComponent" and not all(type(p[0]) is int and type(p[1]) is int for p in args if p is not None):
                 _fail(acc, "RoundingPen", "non-integer-output", repr((op, args)), case)
                 break
         compare(acc, "RoundingPen", case, canon_of(r.value), canon_of(exp_ops), 0.0 if not has_super(dec(exp_ops)) and mode == "int" else 1e-9 * sc)
@@ -792,11 +787,6 @@ def check_seg(case, acc, record=True):
                 continue
             if any(op == "curveTo" and len(a) < 3 for op, a in c):
                 acc.exclude("TTGlyphPen:curveTo-with-fewer-than-3-points(asserts)")
-                clean = False
-                continue
-            if is_noon(c) and len(c[0][1]) >= 3 and c[0][1][0] == c[0][1][-2]:
-                # closePath drops the last point when it equals the first even if both are off-curve (reported)
-                acc.exclude("TTGlyphPen:no-on-curve-contour-first-off==last-off")
                 clean = False
                 continue
             keep.extend(c)
